@@ -85,13 +85,23 @@ def _mc(run):
 def check(run):
     run.build()
     _mc(run)
-    trace, st = run.drive("follow")
+    # model -> code: TLC writes every (tree, request list) of the model with the result of the ALGORITHM model's run
+    from vlib import Inconclusive, model_disagreements, gate_model, strip_model
+    gen = os.path.join(run.work, "gen-follow")
+    os.makedirs(gen, exist_ok=True)
+    run.tlc_mc("ResolverMC", "ResolverMC_gen.cfg", workers=1, label="TLC enumerates the 48600 (tree, request list) cases of ResolverMC with the algorithm model's result (quick tier runs every 6th on the real FollowLinks, thorough all)", env=dict(VERIF_GEN_DIR=gen), timeout=1800)
+    n = len([f for f in os.listdir(gen) if f.startswith("followcase_")])
+    if n != 48600:
+        raise Inconclusive("ResolverMC case generation wrote %d files, 48600 expected" % n)
+    trace, st = run.drive("follow", env=dict(VERIF_GEN_DIR=gen), timeout=3000)
     tr = run.tlc_trace("WalkTrace", trace)
-    tr["failed"] = [f for f in tr["failed"] if any(c.startswith("C18.") for c in f["clauses"])]
+    md = model_disagreements(tr)
+    tr["failed"] = strip_model(tr, "C18.")
     selftest_corrupt(run, "WalkTrace", trace, _drop, name="drop the last element of a returned list")
     selftest_corrupt(run, "WalkTrace", trace, _nested, name="insert an element that lies inside the first one")
     selftest_corrupt(run, "WalkTrace", trace, _hang, name="mark a case as not terminating")
     fails = confirm_by_replay(run, "follow", "WalkTrace", tr, signature_fn=_sig, text_fn=_text)
+    gate_model(md, fails)
     return finish(run, "model_checking", fails, assumptions=ASSUME)
 
 
